@@ -214,8 +214,8 @@ func (x *Exec) topReturn(st *State, fr *Frame, rs []Val, ins *ssa.Return) {
 		if res.At(i).Name() != "" {
 			env.vars[res.At(i).Name()] = sv
 		}
-		if len(rs) == 1 {
-			env.vars["result"] = sv
+		if _, isParam := vc.paramEnv["result"]; len(rs) == 1 && !isParam {
+			env.vars["result"] = sv // (a parameter called result keeps its name; the return value is result0)
 		}
 	}
 	src := x.prog.Fset.Position(ins.Pos()).String()
